@@ -241,4 +241,16 @@ def Summary.fromLists (ref hyp : List α) : Option Summary :=
 /-- `ErrorsSummary.aggregate`: the accumulation loop. -/
 def Summary.aggregate (xs : List Summary) : Summary := xs.foldl Summary.add Summary.zero
 
+/-! ### `ErrorsSummary.confusions`
+
+`from_lists` counts, for every pair of the alignment of `(hyp, ref)`, `confusions[ref_sym][hyp_sym] += 1`;
+`aggregate` adds the tables (`Counter.update`).  The table is a bag of pairs: the model keeps the pairs
+themselves, the count of a pair is `List.count`. -/
+
+def Summary.confusions (ref hyp : List α) : List (Option α × Option α) :=
+  (alignment unit hyp ref).getD []
+
+def aggregateConfusions (xs : List (List (Option α × Option α))) : List (Option α × Option α) :=
+  xs.foldl (· ++ ·) []
+
 end Lev
